@@ -356,8 +356,8 @@ class APIClient:
         login: bool = False,
     ) -> None:
         """Finish connecting to the device."""
-        if TYPE_CHECKING:
-            assert self._connection is not None
+        if self._connection is None:
+            raise APIConnectionError(f"Not connected to {self.log_name}!")
         await self._execute_connection_coro(
             self._connection.finish_connection(login=login)
         )
@@ -366,19 +366,28 @@ class APIClient:
 
     async def _execute_connection_coro(self, coro: Awaitable[None]) -> None:
         """Execute a coroutine and reset the _connection if it fails."""
+        connection = self._connection
         try:
             await coro
         except (Exception, asyncio.CancelledError):  # pylint: disable=broad-except
-            self._connection = None
+            if self._connection is connection:
+                self._connection = None
             raise
 
     async def disconnect(self, force: bool = False) -> None:
-        if self._connection is None:
+        if (connection := self._connection) is None:
             return
         if force:
-            self._connection.force_disconnect()
+            connection.force_disconnect()
         else:
-            await self._connection.disconnect()
+            await connection.disconnect()
+        # The stop hook only fires for connections that were fully
+        # established. A connection closed before that (for example
+        # between start_connection and finish_connection) would otherwise
+        # stay referenced and every later start_connection would be
+        # refused as already connected.
+        if self._connection is connection:
+            self._connection = None
 
     def _get_connection(self) -> APIConnection:
         connection = self._connection
